@@ -23,6 +23,24 @@ Definition hull_iter (s : obs) : option (list nat) :=
   | Some a => circ_iter (next s) (nH s) a a
   end.
 
+(* CircularIterator::next_back, unrolled (DoubleEndedIterator; `convex_hull().rev()`): moves `final` one step back with `b` (= prev for the
+   hull), yields it, stops when it has reached `cur`.  `cur` never moves when only next_back is called. *)
+Fixpoint circ_iter_back (b : nat -> nat) (fuel : nat) (cur final : nat) : option (list nat) :=
+  match fuel with
+  | O => None
+  | S k =>
+      let fin := b final in
+      if cur =? fin then Some [fin]
+      else match circ_iter_back b k cur fin with Some l => Some (fin :: l) | None => None end
+  end.
+
+(* HullIterator::new + .rev() *)
+Definition hull_iter_rev (s : obs) : option (list nat) :=
+  match adj s 0 with
+  | None => Some []
+  | Some a => circ_iter_back (prev s) (nH s) a a
+  end.
+
 (* VertexHandle::out_edges (CCW iterator) -- also VoronoiFace::adjacent_edges *)
 Definition out_edges_iter (s : obs) (v : nat) : option (list nat) :=
   match vout s v with
